@@ -27,6 +27,7 @@ var c13Mounts = []c13mount{
 	{"app-stripped", "m2.example.com", "/app", true},
 	{"app-unstripped", "m3.example.com", "/app", false},
 	{"app-v2-beside-app", "m4.example.com", "/app/v2", true},
+	{"root-buffered", "m5.example.com", "/", true}, // request and response buffering with a 40000-byte memory limit
 }
 
 var c13Segments = []string{"a", "a%2Fb", "%41", "a%20b", "app", "", ";p=1", "a+b", "%E2%82%AC"}
@@ -93,6 +94,10 @@ func c13Setup(w *World) error {
 			a.ServiceOptions.StripPrefix = strip
 			a.ServiceOptions.TLSEnabled = false
 			a.TargetOptions.ForwardHeaders = fwd
+			if strings.HasPrefix(host, "m5.") {
+				a.TargetOptions.BufferRequests, a.TargetOptions.BufferResponses = true, true
+				a.TargetOptions.MaxMemoryBufferSize = 40000
+			}
 			if r := w.Deploy(a); r.Err != nil {
 				return r.Err
 			}
@@ -348,6 +353,8 @@ func c13Route(mount int, rawPath string) (string, string) {
 	switch mount {
 	case 0:
 		return "t0:80", "/"
+	case 4:
+		return "t4:80", "/"
 	case 1, 2:
 		if pathMatches(p, "/app") {
 			return fmt.Sprintf("t%d:80", mount), "/app"
@@ -424,7 +431,7 @@ func c13Cases(tier string) []ECase {
 				for hi := range c13HeaderSets {
 					for _, fwd := range []bool{false, true} {
 						k++
-						ins = append(ins, c13in{mount: k % 4, fwd: fwd, method: me, rest: small[k%3], query: c13Queries[k%8], hdr: hi, body: b, resp: rs})
+						ins = append(ins, c13in{mount: k % 5, fwd: fwd, method: me, rest: small[k%3], query: c13Queries[k%8], hdr: hi, body: b, resp: rs})
 					}
 				}
 			}
@@ -443,7 +450,7 @@ func checkC13(t *testing.T, job *Job, res *Result) {
 	if job.Replay != nil {
 		tier = job.Replay.Tier
 	}
-	res.Rule = "requests built from raw bytes through Server.buildHandler -> router -> service -> target -> real http.Transport -> in-memory echo target; core = every path of <=3 (thorough <=4) segments over {a, a%2Fb, %41, a%20b, app, empty, ;p=1, a+b, %E2%82%AC} with and without trailing slash x 4 mounts (/, /app stripped, /app unstripped, /app/v2 beside /app) x 8 raw queries, other dimensions rotating; look-alike paths; methods x bodies (none, 1B, 70kB, 70kB chunked) x 10 responses (incl. 103 early hints, target's own 503) x 6 header sets x header forwarding on/off; oracle: wire request and client response compared byte for byte with what was sent"
+	res.Rule = "requests built from raw bytes through Server.buildHandler -> router -> service -> target -> real http.Transport -> in-memory echo target; core = every path of <=3 (thorough <=4) segments over {a, a%2Fb, %41, a%20b, app, empty, ;p=1, a+b, %E2%82%AC} with and without trailing slash x 5 mounts (/, /app stripped, /app unstripped, /app/v2 beside /app, / with request+response buffering) x 8 raw queries, other dimensions rotating; look-alike paths; methods x bodies (none, 1B, 70kB, 70kB chunked) x 10 responses (incl. 103 early hints, target's own 503) x 6 header sets x header forwarding on/off; oracle: wire request and client response compared byte for byte with what was sent"
 	res.Bounds = "path segments<=3 quick / <=4 thorough; full product of the path x mount x query core"
 	runE(t, job, res, &ESpec{Prop: "C13", Setup: c13Setup, Cases: c13Cases(tier), Batch: 400})
 }
